@@ -334,11 +334,11 @@ def check(tier, seed, replay=None):
                       "refused_by_real_solver": sum(1 for s_ in (pv.stats if pv else []) if s_[2] == "refused"),
                       "ending_in_a_compared_optimum": sum(1 for s_ in (pv.stats if pv else []) if s_[4] == 1)},
         "samples": samples,
-        "evaluations": len(events) * 6,
+        "evaluations": len(events) * 7,
         "native_overload_trees_equal_to_expr_trees": sum(1 for s in v.stats if len(s) > 5 and s[5] == 1),
         "distinct_nontrivial": same,
         "rule": "one event = one abstract model (ModelGen family G sampled, H simulated) with a call plan from Builder.tla (all interleavings of with / with_all / objective"
-                " calls up to 4 calls, enumerated by TLC), taken through six doors: builder with every operand an Expr, builder written natively (most specific operator overload per operand kind: handle / i32 / f64 / bool / &Expr, list helpers over handles, sum(), constraint! macros per relation), text, text with API-supplied constants, pipes, one-shot;"
+                " calls up to 4 calls, enumerated by TLC), taken through seven doors: builder with every operand an Expr (solved by Auto, and again by the MicroLP solver object), builder written natively (most specific operator overload per operand kind: handle / i32 / f64 / bool / &Expr, list helpers over handles, sum(), constraint! macros per relation), text, text with API-supplied constants, pipes, one-shot;"
                 " non-trivial = builder and text produced identical Model trees (row-for-row comparison applies)",
         "exhaustive": False,
         "families": meta,
